@@ -119,6 +119,7 @@ type State struct {
 	heap   map[string]Term
 	locals map[*ssa.Alloc]Term
 	alloc  Term
+	sfx    string // replay only: heaps of this state are the constants <name><sfx>
 }
 
 func (s *State) clone() *State {
@@ -134,6 +135,15 @@ func (s *State) clone() *State {
 
 func (s *State) heapGet(e *Enc, name, srt string) Term {
 	if t, ok := s.heap[name]; ok {
+		return t
+	}
+	if s.sfx != "" {
+		t := Term{sanitize(name) + s.sfx, srt}
+		if e.extraDecls == nil {
+			e.extraDecls = map[string]string{}
+		}
+		e.extraDecls[t.S] = srt
+		s.heap[name] = t
 		return t
 	}
 	return e.heapInit(name, srt)
@@ -317,6 +327,8 @@ type Enc struct {
 	usedUF  map[string]bool
 
 	heapInits map[string]Term
+	extraDecls map[string]string
+	keepDefs   bool
 	vals      map[ssa.Value]Val
 	outState  map[*ssa.BasicBlock]*State
 	edgeGuard map[[2]int]Term
@@ -421,7 +433,7 @@ func (e *Enc) def(prefix string, t Term) Term {
 	}
 	n := e.freshName(prefix)
 	e.emit("(define-fun %s () %s %s)", n, t.Sort, t.S)
-	if len(e.known) > 0 {
+	if len(e.known) > 0 || e.keepDefs {
 		e.defs[n] = t.S
 	}
 	return Term{n, t.Sort}
